@@ -538,3 +538,9 @@ func pubFanout(c func() (mangos.Socket, error)) {
 	kit.Observe("%q", ref)
 	kit.Must("Close", func() { _ = s.Close() })
 }
+
+// Bodies re-run by C11 under the race-instrumented build.
+var RaceBodies = map[string]func(){
+	"c06-unsub-recv":  schedUnsub,
+	"c06-pub-fanout":  func() { pubFanout(pub.NewSocket) },
+}
